@@ -606,3 +606,6 @@ PROPS["C01"]["level_text"] += " Shared with C14: the hashed and the ordered inde
 PROPS["C07"]["level_text"] += (" insert_if_absent: test and creation under ONE entry guard; Ok(true) exactly on the paths that created the entry in the Vacant arm, Ok(false) exactly in the Occupied arm with no effect at all – "
                                "so, given the guard's mutual exclusion, exactly one of several racing callers wins.")
 PROPS["C07"]["functions"] += ["src/core/store/atomic.rs::insert_if_absent"]
+PROPS["C09"]["level_text"] += (" failed_batch_outcome (every path): an indeterminate failure quarantines the batch's allocations and releases/writes nothing; a definite failure runs cleanup_failed_allocations with the caller's "
+                               "clear_journal flag and, if that fails, quarantines and poisons the device; the outcome is always Err and the retry list receives every prepared write's entry and every deferred delete.")
+PROPS["C09"]["functions"] += [WB + "::failed_batch_outcome"]
